@@ -347,3 +347,31 @@ def apply_tls(seed, prog):
         mark(root)
     out = vencode(root, fixall)
     return out if len(out) <= 5 + 18432 else None
+
+
+def per_node_repeats(seed, counts=(1, 2, 4, 5, 8, 9, 16, 17, 33), maxout=70000):
+    """the slot abstraction of apply_tree reaches a dozen positions of a tree; fixed-size arrays of parsed members sit behind SETs and SEQUENCE OFs anywhere in it.
+    For every member of every constructed node: the member repeated `count` more times (lengths repaired).  Yields (name, mutant)."""
+    try:
+        roots = parse(seed)
+    except (ValueError, RecursionError):
+        return
+    flat = preorder(roots)
+    for k in range(len(flat)):
+        node, parent, idx = flat[k]
+        if parent is None:
+            continue
+        one = len(encode(node, True))
+        for cnt in counts:
+            if one * cnt + len(seed) > maxout:
+                break
+            r2 = parse(seed)
+            f2 = preorder(r2)
+            n2, p2, i2 = f2[k]
+            import copy
+            for _ in range(cnt):
+                p2.kids.insert(i2, copy.deepcopy(n2))
+            try:
+                yield "node%d.rep%d" % (k, cnt), b"".join(encode(t, True) for t in r2)
+            except Exception:
+                break
